@@ -39,6 +39,31 @@ theorem poly4_ge (c : ℝ × ℝ × ℝ × ℝ × ℝ) (Y : ℝ) (hY : |Y| ≤ 1
   rw [pow_one] at b1
   linarith
 
+theorem poly4_le (c : ℝ × ℝ × ℝ × ℝ × ℝ) (Y : ℝ) (hY : |Y| ≤ 1) :
+    Spec.SunEvents.poly4 c Y ≤ c.1 + |c.2.1| + |c.2.2.1| + |c.2.2.2.1| + |c.2.2.2.2| := by
+  unfold Spec.SunEvents.poly4
+  have b : ∀ (a : ℝ) (n : ℕ), a * Y ^ n ≤ |a| := by
+    intro a n
+    have h1 : |a * Y ^ n| ≤ |a| := by
+      rw [abs_mul, abs_pow]
+      calc |a| * |Y| ^ n ≤ |a| * 1 := mul_le_mul_of_nonneg_left (pow_le_one₀ (abs_nonneg Y) hY) (abs_nonneg a)
+        _ = |a| := mul_one _
+    exact le_of_abs_le h1
+  have b1 := b c.2.1 1
+  have b2 := b c.2.2.1 2
+  have b3 := b c.2.2.2.1 3
+  have b4 := b c.2.2.2.2 4
+  rw [pow_one] at b1
+  linarith
+
+/-- difference of two rows of a table, as a row -/
+def rowSub (a b : ℝ × ℝ × ℝ × ℝ × ℝ) : ℝ × ℝ × ℝ × ℝ × ℝ :=
+  (a.1 - b.1, a.2.1 - b.2.1, a.2.2.1 - b.2.2.1, a.2.2.2.1 - b.2.2.2.1, a.2.2.2.2 - b.2.2.2.2)
+
+theorem poly4_sub (a b : ℝ × ℝ × ℝ × ℝ × ℝ) (Y : ℝ) :
+    Spec.SunEvents.poly4 a Y - Spec.SunEvents.poly4 b Y = Spec.SunEvents.poly4 (rowSub a b) Y := by
+  unfold Spec.SunEvents.poly4 rowSub; ring
+
 /-- Every approximate instant is far on the positive side of JD 0. -/
 theorem season_jde0_ge {year k : Int} {j : ℝ} (hk : 0 ≤ k ∧ k ≤ 3) (h : season_jde0 year k = .ok j) :
     1350000 ≤ j := by
